@@ -66,6 +66,7 @@ struct Cfg {
   std::vector<AnsDef> answers;
   long maxNodes = 600000;
   bool escQQ = false;
+  bool enhErr = false;       // enhanced: the adapter may report ERROR_EBUS while it is armed for an arbitration
   bool enhSplit = false;     // enhanced: read chunks may end inside a two-byte frame (needs chunk2 for symbol+half)
   bool arbNone = true;       // the arbitration byte may vanish from the wire (no echo at all)
   bool chunk2 = false;       // deliveries of two symbols in one transport read chunk
@@ -99,7 +100,7 @@ static void parseArg(const std::string& a) {
   else if (k == "keyseen") C.keySeen = b(); else if (k == "reconnect") C.reconnect = b(); else if (k == "maxnodes") C.maxNodes = atol(v.c_str());
   else if (k == "escqq") C.escQQ = b();
   else if (k == "autopoll") C.autoPoll = b();
-  else if (k == "lateecho") C.lateEcho = b(); else if (k == "chunk2") C.chunk2 = b(); else if (k == "arbnone") C.arbNone = b(); else if (k == "enhsplit") C.enhSplit = b();
+  else if (k == "lateecho") C.lateEcho = b(); else if (k == "chunk2") C.chunk2 = b(); else if (k == "arbnone") C.arbNone = b(); else if (k == "enhsplit") C.enhSplit = b(); else if (k == "enherr") C.enhErr = b();
   else if (k == "enhlong") C.enhLongForm = b(); else if (k == "enhfeat") C.enhFeatures = (uint8_t)atoi(v.c_str());
   else if (k == "events") g_mask = "," + v + ",";
   else if (k == "req") {  // req=<kind>:<hex master without crc>[:restarts]
@@ -166,6 +167,7 @@ struct Input {
   bool usedEcho = false, usedDeliv = false, usedCb = false, usedW = false;
   std::vector<uint8_t> echoW;  // the byte whose echo was decided
   Tracker echoT, delivT;       // tracker state at decision time (to enumerate alternatives)
+  bool enhArmed = false;       // enhanced: the adapter was armed at decision time (an error frame is then a delivery choice)
   int lateEcho = -1;           // arbitration byte still awaited by the device at decision time (late echo is a delivery choice)
   std::string str() const {
     std::string s;
@@ -268,7 +270,7 @@ struct FakeTransport : public Transport {
       if (timeout == 0) return RESULT_ERR_TIMEOUT;
       std::string d = "to";
       if (g_in && g_rng) { g_in->usedDeliv = true; d = g_in->deliv = randomDeliv(g_trk); }
-      else if (g_in && !g_in->usedDeliv) { g_in->usedDeliv = true; g_in->delivT = g_trk; d = g_in->deliv; g_in->lateEcho = lateEchoByte(); }
+      else if (g_in && !g_in->usedDeliv) { g_in->usedDeliv = true; g_in->delivT = g_trk; d = g_in->deliv; g_in->lateEcho = lateEchoByte(); g_in->enhArmed = armed != SYN; }
       if (d == "to" || d == "tl") {
         g_ms += timeout; g_trk.silence();
         if (d == "tl") g_sec += 2;
@@ -276,6 +278,7 @@ struct FakeTransport : public Transport {
         return RESULT_ERR_TIMEOUT;
       }
       if (d == "er") { ev("[\"err\",\"read\"]"); g_trk.silence(); close(); return RESULT_ERR_DEVICE; }
+      if (d == "EB" && C.enhanced) { frame(0xb /*ERROR_EBUS*/, 0, 0); d = ""; }   // adapter reports a bus error (framing)
       bool split = !d.empty() && d[d.size() - 1] == '~';  // enhanced: the chunk ends inside the frame of the last symbol
       if (split) d.erase(d.size() - 1);
       for (size_t i = 0; i + 1 < d.size(); i += 2) {
@@ -303,6 +306,7 @@ struct FakeTransport : public Transport {
         if (cmd == 1) { snprintf(b, sizeof b, "[\"rx\",%u,%u]", d, o); ev(b); }
         else if (cmd == 2 || cmd == 0xa) { snprintf(b, sizeof b, "[\"tx\",%u]", o); ev(b); snprintf(b, sizeof b, "[\"rx\",%u,1]", d); ev(b); }  // the adapter wrote o, the wire showed d
         else if (cmd == 0) { snprintf(b, sizeof b, "[\"enh\",\"resetted\",%u]", d); ev(b); }
+        else if (cmd == 0xb || cmd == 0xc) { snprintf(b, sizeof b, "[\"enh\",\"error\",%u]", d); ev(b); }
         i++;
       } else { snprintf(b, sizeof b, "[\"bad\",\"partial-frame-consumed\",%u]", x); ev(b); }
     }
@@ -572,9 +576,11 @@ static bool execToken(const std::string& tok, Input* in) {
 static void addU(std::vector<std::string>* o, const std::string& s) { if (std::find(o->begin(), o->end(), s) == o->end()) o->push_back(s); }
 static std::string h2(uint8_t x) { char b[4]; snprintf(b, 4, "%02x", x); return b; }
 
+static bool g_choiceArmed = false;
 static void delivChoices(const Tracker& t, std::vector<std::string>* o, int lateEcho = -1) {
   o->clear();
   o->push_back("to");
+  if (C.enhanced && C.enhErr && g_choiceArmed) o->push_back("EB");
   if (lateEcho >= 0 && C.lateEcho) o->push_back(h2((uint8_t)lateEcho));
   bool idle = t.ph == P_DEAD || t.ph == P_QQ || t.ph == P_DONE;
   if (C.longTo && (idle || C.longToAnywhere)) o->push_back("tl");
@@ -602,7 +608,7 @@ static void delivChoices2(const Tracker& t, std::vector<std::string>* o, int lat
   if (!C.chunk2) return;
   std::vector<std::string> first(*o);
   for (const std::string& x : first) {
-    if (x == "to" || x == "tl" || x == "er") continue;
+    if (x == "to" || x == "tl" || x == "er" || x == "EB") continue;
     Tracker t2 = t; t2.advance((uint8_t)strtoul(x.c_str(), nullptr, 16));
     std::vector<std::string> second; delivChoices(t2, &second, -1);
     for (const std::string& y : second) if (y != "to" && y != "tl" && y != "er") {
@@ -610,7 +616,7 @@ static void delivChoices2(const Tracker& t, std::vector<std::string>* o, int lat
       if (C.enhanced && C.enhSplit) o->push_back(x + y + "~");   // the chunk ends inside the frame of y
     }
   }
-  if (C.enhanced && C.enhSplit) for (const std::string& x : first) if (x != "to" && x != "tl" && x != "er") o->push_back(x + "~");
+  if (C.enhanced && C.enhSplit) for (const std::string& x : first) if (x != "to" && x != "tl" && x != "er" && x != "EB") o->push_back(x + "~");
 }
 static void echoChoices(const Tracker& t, uint8_t w, std::vector<std::string>* o) {
   o->clear(); o->push_back("s");
@@ -694,7 +700,7 @@ static int cmdGraph(const char* outPath) {
       std::string e0 = in.usedEcho ? in.echo : "", d0 = in.usedDeliv ? in.deliv : "";
       int cb0 = in.usedCb ? in.cb : -1; bool w0 = in.usedW && in.wfail;
       if (in.usedEcho) { std::vector<std::string> c; echoChoices(in.echoT, in.echoW[0], &c); for (auto& x : c) alts.push_back(compose(x, d0, cb0, w0, of)); }
-      if (in.usedDeliv) { std::vector<std::string> c; delivChoices2(in.delivT, &c, in.lateEcho); for (auto& x : c) alts.push_back(compose(e0, x, cb0, w0, of)); }
+      if (in.usedDeliv) { std::vector<std::string> c; g_choiceArmed = in.enhArmed; delivChoices2(in.delivT, &c, in.lateEcho); g_choiceArmed = false; for (auto& x : c) alts.push_back(compose(e0, x, cb0, w0, of)); }
       if (in.usedCb) { VerifAccess::restore(g_h, g_d, g_t, cur); for (size_t r = 0; r < g_reqs.size(); r++) if (g_reqs[r]->status == 0 || g_reqs[r]->status == 3) alts.push_back(compose(e0, d0, (int)r, w0, of)); }
       if (in.usedW && !w0) alts.push_back(compose(e0, d0, cb0, true, of));
       if (!cur.valid && C.openFail && !of) alts.push_back(compose(e0, d0, cb0, w0, true));
